@@ -161,6 +161,14 @@ def cmd_tables():
                     kind = name
             rows.append([[ord(c) for c in ch], kind if kind else {'unexpected': repr(typ)}, val(v)])
         res['parse'][notn.name] = rows
+        rev = {}
+        for k in (Marking.paren_open, Marking.paren_close, Marking.whitespace):
+            try:
+                v = tb.reversed[k]
+                rev[k.name] = [ord(c) for c in v] if isinstance(v, str) else {'unexpected': repr(v)}
+            except KeyError:
+                rev[k.name] = None
+        res.setdefault('reversed', {})[notn.name] = rev
 
     def key(k):
         if isinstance(k, (Operator, Quantifier)):
